@@ -47,9 +47,9 @@ def equinox_cases():
 
 def confirm(rep, results):
     cands = [c for x in results for c in x["cands"]]
-    if not cands:
+    if not cands and not any(x["inconclusive"] for x in results):
         return
-    cases = transit_cases(cands) + equinox_cases() + kp.random_cases(200, 60, int(os.environ.get("VERIF_SEED", "0") or 0))
+    cases = transit_cases(cands) + equinox_cases() + kp.seam_cases(60) + kp.random_cases(200, 60, int(os.environ.get("VERIF_SEED", "0") or 0))
     outs = kreplay.run(cases)
     found = {}
     for c, o in zip(cases, outs):
@@ -62,7 +62,7 @@ def confirm(rep, results):
             found.setdefault(k2, []).append((desc + (" [%s, lon %s]" % (c["from"]["date"], c["lon"]) if "from" in c else " [synthetic triple]"), c, o))
     for key, items in found.items():
         rep.violation(key, items[0][0] + " (+%d more)" % (len(items) - 1), [x[1] for x in items[:5]], items[0][2])
-    if not found:
+    if not found and cands:
         rep.inconclusive.append("solver counterexamples were not reproduced natively; first: %r" % (cands[0],))
 
 
@@ -107,7 +107,7 @@ def run(rep):
     results = base.run_obligations(rep, obls)
     confirm_jd(rep, results)
     tr = [x for x in results if not x["name"].startswith("JulianDay")]
-    if any(x["cands"] for x in tr):
+    if any((x["cands"] or x["inconclusive"]) for x in tr):
         confirm(rep, tr)
     from . import ephsweep
     ephsweep.sweep(rep, {"dhuhr"})
